@@ -237,8 +237,10 @@ class VNCDoToolClient(rfb.RFBClient):
         :param button: [1-n]
         """
         log.debug("mouseDown %s", button)
-        self.buttons |= 1 << (button - 1)
-        self.pointerEvent(self.x, self.y, buttonmask=self.buttons)
+        # send first: an event that cannot be sent must not leave the button held
+        buttons = self.buttons | 1 << (button - 1)
+        self.pointerEvent(self.x, self.y, buttonmask=buttons)
+        self.buttons = buttons
 
         return self
 
@@ -360,8 +362,9 @@ class VNCDoToolClient(rfb.RFBClient):
     def mouseMove(self: TClient, x: int, y: int) -> TClient:
         """Move the mouse pointer to position (x, y)"""
         log.debug("mouseMove %d,%d", x, y)
-        self.x, self.y = x, y
+        # send first: a position that cannot be sent must not be remembered
         self.pointerEvent(x, y, self.buttons)
+        self.x, self.y = x, y
         return self
 
     @inlineCallbacks
